@@ -713,6 +713,10 @@ func (c *Ctx) c11Scripts() error {
 }
 
 func runC11(c *Ctx) error {
+	// handwritten programs (shapes that once slipped through), run by the Go toolchain
+	if err := c.runCorpus("C11-programs"); err != nil {
+		return err
+	}
 	c.Rep.Rule = "slice: histories over a pool of six slice variables (int and byte elements) of literal / make / nil / sub-slice (host, VM, omitted upper bound, beyond len up to cap, out of range) / element write and read (in and out of range) / append (host, VM, spread of a possibly overlapping slice, 0..35 elements, onto nil) / copy (also overlapping, as statement and as a value), contents of all variables compared after every step, len and cap after every append; go-toolchain: programs over 2..4 slice variables of int, byte, float64 or string elements with helper functions, restricted to operations whose outcome does not depend on the growth policy (capacity lower bounds tracked by the generator), optionally ending in an out-of-range error; distinct = distinct history/program; non-trivial = history longer than 20 ops / program with more than 5 features"
 	n, maxOps := 300, 60
 	if c.Thorough() {
